@@ -58,23 +58,23 @@ def _hutch(A, k=0, bs=100, tol=3e-2, max_iters=10000, pbar=False, rand="normal",
 
 
 @reg("diag_hutch", "keyed", "hutch")
-def _diag_hutch(A, k=0, **kw):
-    return cl.diag(A, k, cl.Hutch(**kw))
+def _diag_hutch(A, k=0, alg=None, **kw):
+    return cl.diag(A, k, alg if alg is not None else cl.Hutch(**kw))
 
 
 @reg("trace_hutch", "keyed", "hutch")
-def _trace_hutch(A, **kw):
-    return cl.trace(A, cl.Hutch(**kw))
+def _trace_hutch(A, alg=None, **kw):
+    return cl.trace(A, alg if alg is not None else cl.Hutch(**kw))
 
 
 @reg("diag_auto", "keyed", "hutch")
-def _diag_auto(A, k=0, **kw):
-    return cl.diag(A, k, cl.Auto(**kw))
+def _diag_auto(A, k=0, alg=None, **kw):
+    return cl.diag(A, k, alg if alg is not None else cl.Auto(**kw))
 
 
 @reg("trace_auto", "keyed", "hutch")
-def _trace_auto(A, **kw):
-    return cl.trace(A, cl.Auto(**kw))
+def _trace_auto(A, alg=None, **kw):
+    return cl.trace(A, alg if alg is not None else cl.Auto(**kw))
 
 
 @reg("slq", "keyed", "shim")
@@ -99,8 +99,8 @@ def _lanczos_eigs(A, v0=None, **kw):
 
 
 @reg("eig_lanczos", "keyed")
-def _eig_lanczos(A, k=2, which="LM", v0=None, **kw):
-    return cl.eig(A, k, which, cl.Lanczos(start_vector=v0, **kw))
+def _eig_lanczos(A, k=2, which="LM", v0=None, alg=None, **kw):
+    return cl.eig(A, k, which, alg if alg is not None else cl.Lanczos(start_vector=v0, **kw))
 
 
 @reg("svd_lanczos", "keyed")
@@ -124,8 +124,8 @@ def _arnoldi_eigs(A, v0=None, **kw):
 
 
 @reg("eig_arnoldi", "keyed")
-def _eig_arnoldi(A, k=2, which="LM", v0=None, **kw):
-    return cl.eig(A, k, which, cl.Arnoldi(start_vector=v0, **kw))
+def _eig_arnoldi(A, k=2, which="LM", v0=None, alg=None, **kw):
+    return cl.eig(A, k, which, alg if alg is not None else cl.Arnoldi(start_vector=v0, **kw))
 
 
 @reg("power_iteration", "keyed")
@@ -139,18 +139,18 @@ def _PowerIteration_call(A, **kw):
 
 
 @reg("eig_power", "keyed")
-def _eig_power(A, **kw):
-    return cl.eig(A, 1, "LM", PowerIteration(**kw))
+def _eig_power(A, alg=None, **kw):
+    return cl.eig(A, 1, "LM", alg if alg is not None else PowerIteration(**kw))
 
 
 @reg("eig_auto1", "keyed")
-def _eig_auto1(A, **kw):
-    return cl.eig(A, 1, "LM", cl.Auto(**kw))
+def _eig_auto1(A, alg=None, **kw):
+    return cl.eig(A, 1, "LM", alg if alg is not None else cl.Auto(**kw))
 
 
 @reg("eigmax", "keyed")
-def _eigmax(A, **kw):
-    return cl.eigmax(A, cl.Auto(**kw))
+def _eigmax(A, alg=None, **kw):
+    return cl.eigmax(A, alg if alg is not None else cl.Auto(**kw))
 
 
 @reg("nystrom", "keyed")
@@ -190,8 +190,8 @@ def _lobpcg(A, **kw):
 
 
 @reg("eig_lobpcg", "keyed")
-def _eig_lobpcg(A, k=2, which="LM", **kw):
-    return cl.eig(A, k, which, LOBPCG(**kw))
+def _eig_lobpcg(A, k=2, which="LM", alg=None, **kw):
+    return cl.eig(A, k, which, alg if alg is not None else LOBPCG(**kw))
 
 
 @reg("svd_lobpcg", "keyed")
@@ -200,8 +200,9 @@ def _svd_lobpcg(A, k=2, which="LM", **kw):
 
 
 @reg("logdet_lh", "keyed", "shim")
-def _logdet_lh(A, lkw=None, hkw=None):
-    return cl.logdet(A, cl.Lanczos(**(lkw or {})), cl.Hutch(**(hkw or {})))
+def _logdet_lh(A, lkw=None, hkw=None, lalg=None, halg=None):
+    return cl.logdet(A, lalg if lalg is not None else cl.Lanczos(**(lkw or {})),
+                     halg if halg is not None else cl.Hutch(**(hkw or {})))
 
 
 @reg("slogdet_lh", "keyed", "shim")
@@ -289,6 +290,13 @@ def _solve(A, b, alg=None, akw=None, x0=None, P=None):
     if P is not None:
         akw["P"] = P
     return cl.solve(A, b, _alg(alg, akw))
+
+
+@reg("rsolve")
+def _rsolve(A, b, alg=None, akw=None):
+    """left solve  b @ inv(A[, alg])"""
+    Ainv = cl.inv(A) if alg is None else cl.inv(A, _alg(alg, akw))
+    return b @ Ainv
 
 
 @reg("pinv")
